@@ -11,7 +11,8 @@ import RsslVerif.Model.MslAst
 `generate_function_out_trampoline_body`, `genFuncs` ↔ `generate_function_and_trampoline`.
 Every Rust panic on these paths is an explicit `Except.error (.panic …)`, every `return Err(GenerateError::e)` an
 `Except.error (.diag e)` (since fix batch 2: `IntLiteralOutOfRange` 6017bad, `UnsupportedDouble` 9824ce3 — no modelled constant
-is a double —, `ComplexTypeBind` 922a181 in `generate_for_init`).  What the exporter reads from its context
+is a double —, `ComplexTypeBind` 922a181 in `generate_for_init`; fix batch 3: `ComplexRemainderAssignment` 92d66eb for a
+floating-point `%=` whose target is not a plain place).  What the exporter reads from its context
 (names, types, `function_required_globals`, `called_functions`) is the parameter `Ctx`.
 -/
 namespace RsslVerif.Model.GenMsl
@@ -106,6 +107,43 @@ def scalarIn (scalars : List String) (t : Ty) : Bool :=
   | some k => scalars.contains k
   | none => false
 
+/-- the constructor of `ir::Expression` a node of the scalar subset is -/
+def ctorName : Ir.Expr → String
+  | .lit _ => "Literal"
+  | .var _ => "Variable"
+  | .global _ => "Global"
+  | .op _ _ => "IntrinsicOp"
+  | .tern _ _ _ => "TernaryConditional"
+  | .seq _ => "Sequence"
+  | .cast _ _ => "Cast"
+  | .call _ _ => "Call"
+  | .intr _ _ _ _ => "Call"
+
+/-- the arm of `is_plain_place` (table `remAssignPlaceGuard`, re-extracted) for the constructor accepts without looking at
+any field (`=> true`); no arm = the `_ => false` arm -/
+def leafPlace (c : String) : Bool :=
+  match remAssignPlaceGuard.find? (fun r => r.ctor == c) with
+  | some r => r.ops.isEmpty && r.self.isEmpty && r.other.isEmpty && r.allOf.isEmpty
+  | none => false
+
+/-- `is_plain_place` on the scalar subset (fix 92d66eb): locals, parameters and globals are plain places; the other
+constructors of the subset (operators, `?:`, sequences, casts, calls, literals) have no arm.  The arms that look into an
+object (`StructMember`, `Swizzle`, `ArraySubscript`) have no counterpart in the subset (vector layer: `GenMslVec.plainPlaceV`). -/
+def plainPlace (e : Ir.Expr) : Bool := leafPlace (ctorName e)
+
+/-- `is_plain_place(&exprs[0])` -/
+def plainPlaceHead : Ir.Exprs → Bool
+  | .nil => false
+  | .cons a _ => plainPlace a
+
+/-- `exprs[0].get_type(context.module).unwrap()` -/
+def exprTyHead (cx : Ctx) : Ir.Exprs → Except GenErr Ty
+  | .nil => .error (.panic "generate_intrinsic_op: index out of bounds")
+  | .cons a _ =>
+    match exprTy cx a with
+    | none => .error (.panic "generate_intrinsic_op: called `Result::unwrap()` on an `Err` value")
+    | some t => .ok t
+
 /-- `metal_lib_identifier(name)` printed as a scoped identifier -/
 def metalLib (name : String) : String := metalLibPrefix ++ "::" ++ name
 
@@ -182,6 +220,41 @@ def genExpr (cx : Ctx) : Ir.Expr → Except GenErr HlslAst.Expr
             | .error e => .error e
             | .ok as => .ok (.call (metalLib name) as)
           else genBinary cx b args
+    | .floatAssign scalars err outer inner b =>
+      -- fix 92d66eb: on a floating-point first operand `a op= y` is generated as `IntrinsicOp(outer, [a, IntrinsicOp(inner, exprs)])`
+      -- (`a = a % y`, whose `%` becomes `metal::fmod`), provided `a` is a plain place; otherwise `Err(err)`
+      match exprTyHead cx args with
+      | .error e => .error e
+      | .ok t =>
+        if scalarIn scalars t then
+          if plainPlaceHead args then
+            match mslOpForm outer with
+            | .binary bo =>
+              match genHead cx args with
+              | .error e => .error e
+              | .ok a' =>
+                match mslOpForm inner with
+                | .floatCall name sc bi =>
+                  if scalarIn sc t then
+                    match genArgs cx args with
+                    | .error e => .error e
+                    | .ok as => .ok (.bin bo a' (.call (metalLib name) as))
+                  else
+                    match genBinary cx bi args with
+                    | .error e => .error e
+                    | .ok v => .ok (.bin bo a' v)
+                | .binary bi =>
+                  match genBinary cx bi args with
+                  | .error e => .error e
+                  | .ok v => .ok (.bin bo a' v)
+                | _ => .error (.unsupported "float assign: form of the inner operator")
+            | _ => .error (.unsupported "float assign: form of the outer operator")
+          else .error (.diag err)
+        else genBinary cx b args
+/-- `generate_expression(&exprs[0], …)` -/
+def genHead (cx : Ctx) : Ir.Exprs → Except GenErr HlslAst.Expr
+  | .nil => .error (.panic "generate_intrinsic_op: index out of bounds")
+  | .cons a _ => genExpr cx a
 /-- `Form::Binary(op)` -/
 def genBinary (cx : Ctx) (b : BinOp) : Ir.Exprs → Except GenErr HlslAst.Expr
   | .cons x (.cons y .nil) =>
